@@ -6,7 +6,8 @@ from .common import log
 
 PROP = "C02"
 TRUSTED = [
-    "Coq 8.16.1 kernel; the theorems of coq/C02/Props.v are fixed-point statements about the passes modelled for other properties (blank-line clamp, trailing-newline cut, newline conversion, stable sort of a sorted list, range normalisation): Closed under the global context",
+    "Coq 8.16.1 kernel; the theorems of coq/C02/Props.v (31) are fixed-point statements about the passes modelled for other properties: stable sort of a sorted list, range normalisation, and the import pipeline of coq/C10 (normalize_idem, regroup_idem_* for Preserve / Item / Module, pipeline_idem_from_regroup, with _refuted witnesses for Crate / One / self chains / repeated imports); the blank-line clamp, trailing-newline cut and newline conversion fixed points are in coq/C08: Closed under the global context",
+    "the import model is tied to the code by C10's correspondence run; here the _refuted witnesses are replayed on the implementation on every run",
     "idempotence of the whole formatter is NOT a theorem: it is searched on the committed pool x configuration grid x re-layouts (every accepted output is formatted again, in process)",
     "in-process formatting through Session::format(Input::Text) (hook-free public API)",
 ]
@@ -28,6 +29,19 @@ GRID_PRESETS = ["base", "se2024", "comments", "imports"]
 GRID_LAYOUTS = ["orig", "lines", "random"]
 
 
+# (theorem of coq/C02/Props.v, imports_granularity, input)
+WITNESSES = [
+    ("normalize_idem_refuted", "Preserve", "use a::self::self;\n"),
+    ("regroup_idem_selfchain_refuted", "Crate", "use a::self::self;\n"),
+    ("regroup_idem_item_refuted", "Item", "use a::{b::self::self /*c*/, c};\n"),
+    ("regroup_idem_module_refuted", "Module", "use a::b::c;\nuse a::b::d;\nuse a::b::c;\n"),
+    ("regroup_idem_crate_refuted", "Crate", "use b;\nuse b::{self, a};\n"),
+    ("regroup_idem_crate_bare_self_refuted", "Crate", "use {self, a};\n"),
+    ("regroup_idem_one_refuted", "One", "use a::b;\nuse a::b::c;\nuse a;\n"),
+    ("regroup_idem_nested_empty", "Crate", "use a::{self, b::{}};\n"),
+]
+
+
 def cfg_id(over):
     return ",".join("%s=%s" % (k, v) for k, v in over) or "default"
 
@@ -44,7 +58,7 @@ def run(tier, seed, replay):
     rep = common.Reporter(PROP, tier, seed, "proof")
     rep.assumptions = TRUSTED
     import os
-    dirs = [d for d in ["C02", "C08", "C11", "C17"] if os.path.isdir(os.path.join(common.COQ, d))]
+    dirs = [d for d in ["C02", "C08", "C10", "C11", "C17"] if os.path.isdir(os.path.join(common.COQ, d))]
     cr = common.coq_phase(dirs, "C02/Props.v")
     common.coq_coverage(rep, cr, "cd coq && make C02/Props.vo && coqc -Q . V C02/Props.v (+ hygiene grep, Print Assumptions allow-list)", TRUSTED)
     if not cr.ok:
@@ -99,6 +113,12 @@ def run(tier, seed, replay):
                 continue
             cases.append({"text": text, "config": cfg, "again": True, "lex": False})
             meta.append(("synth/" + name, "orig", "syn%d" % si, w))
+    # the witnesses of the `_refuted` theorems of coq/C02/Props.v (the import pipeline is not a fixed point of itself on
+    # them), replayed on the implementation: each is a recorded finding, keyed by the theorem
+    if not replay or json.load(open(replay)).get("pool_id", "").startswith("witness/"):
+        for name, gran, text in WITNESSES:
+            cases.append({"text": text, "config": [["imports_granularity", gran]], "again": True, "lex": False})
+            meta.append(("witness/" + name, "orig", gran, "100"))
     # import runs: C11's generated groups (nested lists with repeated leading segments and entries not yet normalised,
     # large groups with alias-only pairs, plain lists).  The declaration groups of C10's generator are NOT used here:
     # on them the unchanged tree is not idempotent in several ways that belong to C10's recorded classes (duplicate
@@ -134,7 +154,7 @@ def run(tier, seed, replay):
             continue
         if r["out2"] != r["out"]:
             ln, x, y = first_diff(r["out"], r["out2"])
-            key = "nonidem:%s:%s" % (pid, sig(x, y))
+            key = "nonidem:%s:%s" % (pid, sig(x, y)) if not pid.startswith("witness/") else "nonidem_" + pid
             base.update({"out2": r["out2"], "first_diff": {"line": ln, "pass1": x, "pass2": y}})
             if rep.violation(key, base, "format(format(x)) != format(x) for %s layout %s config %s: line %d %r -> %r" % (pid, lay, cid, ln, x, y)):
                 found += 1
